@@ -10,6 +10,18 @@ CHECKS = {
    text="TLC enumerates the (type, form, M, K, N) case space as the state graph of GenMatmul (exhaustive box plus every boundary of the kernel ladder), checks the L2 tiling obligations of MatmulDesign in every state, and the real library's result for every case is recorded under SSE2/AVX2/AVX-512 builds and validated element-by-element (guards included) by TLC against the L1 operator Matmul!Product.",
    note="Exact on integer-valued data (sound for every summation order); bilinear kernels, so Schwartz-Zippel bounds agreement of a wrong kernel on random draws; the non-integer rounding bound is argued, not measured. Trusted: TLC, g++ 12, the recorder vt.h.",
    technique="TLA+ L1 spec + TLC-enumerated plan + TLC trace validation of recorded results; L2 tiling model checked by TLC"),
+ "C04": dict(level=MC, design="3/C04",
+   text="TLC generates behaviours of the tensor-machine specification (GenViews, Mode=read) - slices of ranks 1-4 in every admissible encoding, scalar indexing with negative indices, reads interleaved with writes - which are compiled into statements on the real library; every value read is validated by TLC against TensorMachine!Read(Sel(shape, ranges)). The L2 RangeNorm model (constructor normalisation, to_positive, seq::size) is checked exhaustively against the documented meaning for extents <= 12.",
+   note="Exact small-integer data. Bare integers <= -2 inside a slice are outside the generated domain (undefined by the property). Reads outside the parent are only visible to C07. Trusted: TLC, g++ 12, recorder.",
+   technique="TLA+ tensor-machine spec; tlc -generate behaviours replayed on the library; TLC trace validation"),
+ "C05": dict(level=MC, design="3/C05",
+   text="TLC generates write behaviours of the tensor-machine specification (5 calls each over a 6-buffer arena: all five operators, scalar/tensor/slice/expression right-hand sides, every admissible range encoding, dynamic and compile-time views, scalar element writes); after every call the whole guarded block of the written buffer, and at the end every buffer, is validated by TLC against the snapshot+frame action TensorMachine!AssignSel.",
+   note="Exact small-integer data; /= only on divisible cells. Alignment padding inside a Tensor object is not observed. Runs with and without FASTOR_USE_VECTORISED_EXPR_ASSIGN.",
+   technique="TLA+ tensor-machine spec; tlc -generate behaviours replayed on the library; TLC trace validation of full post-states"),
+ "C18": dict(level=MC, design="3/C18",
+   text="TLC generates behaviours in which source and destination slices are drawn from the same buffer (arbitrary overlap with noalias(); identical or disjoint selections without), on dynamic and compile-time views of ranks 1-4 and all five operators; TLC validates every recorded post-state against the snapshot semantics (right-hand side evaluated on the pre-state).",
+   note="Exact small-integer data. Index-tensor and mask views are covered by C19's plan; view-object reuse is not yet in the plan.",
+   technique="TLA+ tensor-machine spec; tlc -generate behaviours replayed on the library; TLC trace validation"),
 }
 NA_REASON = "check not built yet (work in progress in this session; see DESIGN.md section 3 for the planned model)"
 
